@@ -21,8 +21,12 @@
 // Conventions of the model (enforced by Validate):
 //
 //   - identifiers are plain lower-case [a-z_][a-z0-9_]* (they are used as HCL references);
-//   - primary-key columns are always NOT NULL (SQLite forces this for WITHOUT ROWID tables and Atlas
-//     writes the declared nullability, so this keeps expected and observed facts comparable);
+//   - primary-key columns are NOT NULL in everything the generators produce; Validate accepts a
+//     nullable key column (SQLite allows it, and reports the declared nullability, for rowid tables;
+//     for WITHOUT ROWID tables it forces NOT NULL, which Facts accounts for) so that monitors can build
+//     such cases by hand; Populate never stores NULL in a key column;
+//   - a table may be called new_<other table> (the name Atlas's planner uses for its temporary copy);
+//     the generators never produce such names, monitors build them by hand;
 //   - every expression bearing entity (generated column, check, partial/expression index) lists the
 //     columns it mentions in Refs, so that edits can keep the model valid without parsing SQL;
 //   - a foreign key references the parent's primary key or the exact column list of one of its unique,
@@ -303,7 +307,7 @@ func (s Schema) Validate() error {
 	seenT := map[string]bool{}
 	seenI := map[string]bool{} // index names share the schema wide name space with tables
 	for _, t := range s.Tables {
-		if !reIdent.MatchString(t.Name) || strings.HasPrefix(t.Name, "sqlite_") || strings.HasPrefix(t.Name, "new_") {
+		if !reIdent.MatchString(t.Name) || strings.HasPrefix(t.Name, "sqlite_") {
 			return fmt.Errorf("table %q: bad name", t.Name)
 		}
 		if seenT[t.Name] {
@@ -373,8 +377,8 @@ func (s Schema) Validate() error {
 				return fmt.Errorf("%s: bad primary key column %q", t.Name, p)
 			}
 			seenP[p] = true
-			if c.Null {
-				return fmt.Errorf("%s.%s: nullable primary key column", t.Name, p)
+			if c.Null && c.AutoInc {
+				return fmt.Errorf("%s.%s: nullable AUTOINCREMENT column", t.Name, p)
 			}
 		}
 		if t.WithoutRowID && len(t.PK) == 0 {
